@@ -414,12 +414,13 @@ func (r *Reader) readRemoteNodeContent(ctx context.Context, node RemoteNode) ([]
 	r.debugf("downloading remote file: %s\n", node.Location())
 	downloadedBytes, err := node.ReadContext(ctx)
 	if err != nil {
-		// If the context timed out or was cancelled, but we found a cached version, use that
-		if ctx.Err() != nil && cacheFound {
+		// If the download failed (timeout, cancellation, unreachable server ...),
+		// but we found a cached version, use that
+		if cacheFound {
 			if cacheValid {
-				r.debugf("failed to fetch remote file: %s: using cache\n", ctx.Err().Error())
+				r.debugf("failed to fetch remote file: %s: using cache\n", err.Error())
 			} else {
-				r.debugf("failed to fetch remote file: %s: using expired cache\n", ctx.Err().Error())
+				r.debugf("failed to fetch remote file: %s: using expired cache\n", err.Error())
 			}
 			return cachedBytes, nil
 		}
